@@ -280,6 +280,7 @@ class Analyzer:
         self.cmp_obs = {}  # (fn, bb of switch) -> operand intervals of the deciding comparison
         self.add_obs = {}  # (fn, bb of an Overflow:Add assert) -> (interval of a, interval of b)
         self.incr = {}  # (fn, bb of push/extend) -> max length increment
+        self.obs = {}
         self.ctx_log = {}  # fn path -> set of analysed contexts (kept across partitions; read by obligations' requirements)
         self.call_ok_obs = {}  # (fn, bb of a call to a local fn) -> join over contexts of the `#ok` fact of its result (None = unknown)
         self.lossy_obs = {}  # (fn, kind, target type) -> (exact interval, target range): narrowing casts / saturating / wrapping ops that may lose value
@@ -1134,6 +1135,15 @@ class Analyzer:
             return
         self.set_key(st, dkey, rng)
 
+    def note_obs(self, kind, f, term, val):
+        """Observation probes read by rule modules: (kind, fn, block of the call) -> list of values seen (one per context / visit)."""
+        b = None
+        for i, blk in enumerate(f.blocks):
+            if blk["term"] is term:
+                b = i
+                break
+        self.obs.setdefault((kind, f.path, b), []).append(val)
+
     def note_lossy(self, f, kind, ty, exact, rng):
         k = (f.path, kind, ty)
         prev = self.lossy_obs.get(k)
@@ -1286,6 +1296,8 @@ class Analyzer:
         proved = civ is not None and civ == (exp, exp)
         if record:
             m = t["msg"]
+            if m["kind"] == "BoundsCheck":
+                self.obs.setdefault(("bounds", f.path, b), []).append((self.op_iv(f, st, m["index"]), self.op_iv(f, st, m["len"])))
             if m["kind"] == "Overflow" and m.get("op") == "Add":
                 a_, b_ = self.op_iv(f, st, m["a"]), self.op_iv(f, st, m["b"])
                 prev = self.add_obs.get((f.path, b))
